@@ -62,6 +62,14 @@ def specs_for(tier, seed):
     for why, ca in never:
         specs.append(dict(tag="C08/s%04d" % len(specs), certs=certs, attempts=1, endpoints={"A": {"ca": ca}},
                           meta={"why": why}))
+        # the same with a Retry-After header on every poll answer (RFC 8555 7.5.1): whatever it says, polling stops after 20 polls
+        for ra in ((0, 1, 3, 30) if tier == "thorough" else (0, 3)):
+            specs.append(dict(tag="C08/s%04d" % len(specs), certs=certs, attempts=1, endpoints={"A": {"ca": dict(ca, retry_after=ra)}},
+                              meta={"why": why + ", Retry-After: %d" % ra}))
+    # objects that get there late, with Retry-After: still within the bound
+    for ra in (0, 2):
+        specs.append(dict(tag="C08/s%04d" % len(specs), certs=certs, attempts=1, endpoints={"A": {"ca": {"authz_polls": 15, "order_polls": 12, "retry_after": ra}}},
+                          meta={"why": "slow but finite objects, Retry-After: %d" % ra}))
     return specs, posts
 
 
@@ -102,7 +110,7 @@ def run(ctx):
            "model_fidelity": {"all_labels_clean": not fb and not fu, "bad": [(results[i]["meta"], l) for i, l, _ in fb[:5]]},
            "exhaustive": False,
            "rule": "every POST position of a two-identifier issuance x every ACME error type (+unknown, type-less) with run lengths "
-                   "around the bound; non-problem bodies; GET faults; never-ready objects. thorough: all lengths 1..12 everywhere."}
+                   "around the bound; non-problem bodies; GET faults; never-ready and slow objects, with and without a Retry-After header on the poll answers. thorough: all lengths 1..12 everywhere."}
     return {"coverage": cov, "assumptions": [
         "the mock CA's event (written before it replies) faithfully records what it received and answered",
         "the feature build only adds observation and virtualises sleeps",
